@@ -266,6 +266,31 @@ Definition only (s : stream) (l : list (stream * N)) : bytes :=
   map snd (filter (fun p => stream_eqb s (fst p)) l).
 
 (* ------------------------------------------------------------------------------------------ *)
+(* After the child has exited: [detect_fd_leaks] is called on EVERY result path of
+   [run_test_inner] / [run_setup_script] -- normal exit, exit during a grace period, SIGKILL after
+   the grace period, and SIGKILL with a zero grace period, where [child.wait()] is awaited without
+   reading -- with the tentative result only passed along for info responses. It is the only place
+   where what is still in the pipes after the exit is read, so the drain must not depend on the
+   tentative result. *)
+
+Inductive tentative := TnNone | TnPass | TnFail | TnExecFail | TnTimeout.
+
+Definition sched_polls (sched : list (stream * N)) : list ev :=
+  map (fun p => EPoll (fst p) (snd p)) sched.
+
+(* the reads detect_fd_leaks performs (which reader select! completes, how many bytes each read
+   returns: [sched]); faithful to the code: the same for every tentative result *)
+Definition leak_phase (t : tentative) (sched : list (stream * N)) : list ev := sched_polls sched.
+
+(* a variant that returns at once for a unit that timed out (not what the code does; kept to show
+   what the theorem excludes) *)
+Definition leak_phase_skipping_timeout (t : tentative) (sched : list (stream * N)) : list ev :=
+  match t with TnTimeout => [] | _ => sched_polls sched end.
+
+Definition polls_for (s : stream) (sched : list (stream * N)) : list N :=
+  map snd (filter (fun p => stream_eqb s (fst p)) sched).
+
+(* ------------------------------------------------------------------------------------------ *)
 (* Many attempts: events tagged with (test, attempt); each key gets its own fresh accumulator *)
 
 Definition key := (N * N)%type.
